@@ -208,7 +208,7 @@ func unionMenu(w *chain.World) []chain.Action {
 }
 
 func run(c *vf.Ctx) {
-	N := vf.Pick(c, 33, 130)
+	N := vf.Pick(c, 33, 100)
 	depth := vf.Pick(c, 2, 3)
 	c.Set("rule", fmt.Sprintf("(a) for every genesis size m<=%d (leaf counts m+1: all bit patterns), every subset S of live leaves spent in one block (all subsets when <=10 live leaves, else all subsets of size <=2, full, alternating, prefix and suffix halves), every growth g in 2..9, followed by a reduced second (and third) block and by revert+re-apply of depth 1..%d; (b) union-alphabet DFS with leaf positions in the state key. Oracle: every tracked element (live, spent, chain index, attestation) has proof == reference path and leaf == reference leaf with its current spent status; roots and leaf count == naive forest; ForEachTreeNode == reference nodes of exactly the touched paths", N, depth))
 	keys := chain.NewKeys(c.Seed)
